@@ -1,5 +1,6 @@
 import MtailVerif.Proofs.MetricRefine
 import MtailVerif.Props.C08
+import MtailVerif.Proofs.Skeletons
 /-! # C09 — A metric behaves as a map from label tuples to values
 
     `Metric.step` is the model of the Go methods (`GetDatum`, writes through the returned
@@ -215,5 +216,12 @@ theorem same_datum_iff_equal_tuple (mk : V) (m : Metric V) (hi : Inv m) (a b : L
 example : (abs (reach 1 (0 : Int)
     [.set [[45]] (· + 1), .set [[97]] (· + 5), .expire 7 [[45]], .remove [[97]], .get [[92]]])).map
       (fun e => (e.labels, e.value, e.expiry)) = [([[45]], 1, 7), ([[92]], 0, 0)] := by decide
+
+/-! ### regenerated control skeletons (written by lib/wire_skeletons.py) -/
+/-- Obligations over regenerated facts: the functions this property's model stands for have the
+    control skeleton the model was written against (`Proofs/Skeletons.lean`, one `rfl` per function
+    or clause; DESIGN.md §11.6a) -/
+theorem metric_skeletons : Skeletons.MetricShape := Skeletons.metric_shape
+theorem datum_skeletons : Skeletons.DatumShape := Skeletons.datum_shape
 
 end MtailVerif.C09
